@@ -229,21 +229,39 @@ Definition ks_domain_ok : bool :=
 
 Definition keystroke_savers_ok : bool := ks_domain_ok && forallb ks_check keystroke_spellings.
 
-(* Spellings whose effect differs from the documented expansion on the pinned tree (findings, see c02_flags.py):
-     --X2l (X <> y)   select OutputFileFormat "json" with --no-jlistwrap --no-jvstack instead of "jsonl" like --ojsonl
-                      (and --y2l): OFS/OPS/ORS read N/A instead of "", a later --jvstack takes effect;
-     --m2X (X <> p)   set ifsWasSpecified without setting IFS, which stays "," instead of the markdown default " ";
-     --t2n            additionally sets CSVLazyQuotes. *)
-Definition ks_known_bad : list bytes :=
-  [ B "--c2l"; B "--t2l"; B "--j2l"; B "--d2l"; B "--n2l"; B "--x2l"; B "--p2l"; B "--m2l";
-    B "--m2c"; B "--m2t"; B "--m2j"; B "--m2d"; B "--m2n"; B "--m2x"; B "--m2y";
-    B "--t2n" ].
+(* (The spellings that differed on the pinned tree -- --t2n lazy quotes, --X2l json/jsonl, --m2X IFS -- were repaired in
+   /repo; there is no exclusion list any more.) *)
 Definition ks_failing : list bytes := filter (fun s => negb (ks_check s)) keystroke_spellings.
-Definition keystroke_savers_ok_partial : bool :=
-  ks_domain_ok && forallb (fun s => mem s ks_known_bad || ks_check s) keystroke_spellings.
-(* the exclusion list is exact: each excluded spelling is in the table and really fails *)
-Definition ks_known_bad_exact : bool :=
-  forallb (fun s => mem s keystroke_spellings && negb (ks_check s)) ks_known_bad.
+
+(* ---- prefix contexts: a separator flag given BEFORE the keystroke saver / its expansion ---- *)
+Definition ctx_prefixes : list (list bytes) :=
+  [ [B "--ifs"; B ";"]; [B "--ofs"; B ";"]; [B "--ips"; B ":"]; [B "--ops"; B ":"]; [B "--irs"; B ";"]; [B "--ors"; B ";"] ].
+Definition equiv_pre (p a b : list bytes) : bool :=
+  match effect (p ++ a), effect (p ++ b) with
+  | Some x, Some y => opts_eqb x y
+  | _, _ => false
+  end.
+Definition ks_prefix_check (s : bytes) : bool :=
+  match expansion_of_name s with
+  | Some e => forallb (fun p => equiv_pre p [s] e) ctx_prefixes
+  | None => false
+  end.
+(* Order-sensitive spellings on the pinned tree: --otsv and --onidx assign OFS themselves (so they override an earlier
+   --ofs), the listed --X2t / --X2n closures only select the format (so an earlier --ofs survives; for TSV the run then
+   ends with "for TSV, OFS cannot be altered"); --d2t, --c2n, --t2n, --d2n assign OFS like --otsv/--onidx. *)
+Definition ks_prefix_sensitive : list bytes :=
+  [ B "--t2t"; B "--c2t"; B "--j2t"; B "--l2t"; B "--m2t"; B "--n2t"; B "--p2t"; B "--x2t"; B "--y2t";
+    B "--n2n"; B "--j2n"; B "--l2n"; B "--m2n"; B "--p2n"; B "--x2n"; B "--y2n" ].
+Definition keystroke_savers_prefix_ok_partial : bool :=
+  forallb (fun s => mem s ks_prefix_sensitive || ks_prefix_check s) keystroke_spellings.
+(* the exclusion list is exact: each listed spelling is in the table, differs under the prefix --ofs, and only there *)
+Definition ks_prefix_sensitive_exact : bool :=
+  forallb (fun s => mem s keystroke_spellings
+                    && match expansion_of_name s with
+                       | Some e => negb (equiv_pre [B "--ofs"; B ";"] [s] e)
+                                   && forallb (fun p => lbeqb p [B "--ofs"; B ";"] || equiv_pre p [s] e) ctx_prefixes
+                       | None => false
+                       end) ks_prefix_sensitive.
 
 (* ------------------------------------------------------------------ (2) --X = --iX --oX  ("Use X format for input and output data") *)
 Definition io_pair_names : list bytes :=
